@@ -3,6 +3,7 @@
 //! shards work units over worker processes, watches them, minimises and reports.
 
 mod c03;
+mod c09;
 mod corpus;
 mod engine;
 mod gen_filter;
@@ -27,7 +28,7 @@ fn arg<'a>(args: &'a [String], name: &str) -> Option<&'a str> {
 
 fn ctx_from(args: &[String]) -> Ctx {
     Ctx {
-        repo: PathBuf::from(arg(args, "--repo").unwrap_or("/repo")),
+        repo: PathBuf::from(arg(args, "--repo").map(|s| s.to_string()).or_else(|| std::env::var("VERIF_REPO").ok()).unwrap_or_else(|| "/repo".into())),
         tier: if arg(args, "--tier") == Some("thorough") { Tier::Thorough } else { Tier::Quick },
         seed: arg(args, "--seed").and_then(|s| s.parse().ok()).unwrap_or(20240607),
     }
@@ -36,6 +37,7 @@ fn ctx_from(args: &[String]) -> Ctx {
 fn engine_for(prop: &str, ctx: Ctx) -> Box<dyn Engine> {
     match prop {
         "C03" => Box::new(c03::C03 { ctx }),
+        "C09" => Box::new(c09::C09 { ctx }),
         other => {
             eprintln!("haysim: unknown property {other}");
             std::process::exit(2);
@@ -44,9 +46,10 @@ fn engine_for(prop: &str, ctx: Ctx) -> Box<dyn Engine> {
 }
 
 /// Engine-independent dispatch for explicit cases (replay, minimisation).
-fn run_explicit(case: &Case) -> Outcome {
+fn run_explicit(case: &Case, ctx: &Ctx) -> Outcome {
     match case.prop.as_str() {
         "C03" => c03::run_case(case),
+        "C09" => c09::run_case(case, c09::load_namespace(ctx)),
         other => {
             eprintln!("haysim: unknown property {other}");
             std::process::exit(2);
@@ -107,7 +110,7 @@ fn cmd_run_case(args: &[String]) {
     let v: serde_json::Value = serde_json::from_str(&text).expect("case json");
     // a replay file wraps the case; a bare case is accepted too
     let case: Case = if v.get("case").is_some() { serde_json::from_value(v["case"].clone()).expect("case") } else { serde_json::from_value(v).expect("case") };
-    let out = run_explicit(&case);
+    let out = run_explicit(&case, &ctx_from(args));
     println!(
         "{}",
         serde_json::json!({
